@@ -1554,6 +1554,16 @@ class C12(Prop):
             if rng.random() < 0.5:
                 hs2 = g.tensors()
                 g.emit({"k": "readgrad", "hs": rng.sample(hs2, min(3, len(hs2)))})
+            if rng.random() < 0.35:
+                # snapshots of tensors that now hold gradients: t.copy() & co. carry a gradient of their own
+                from .gen import G
+
+                for src in rng.sample(hs, min(rng.randint(1, 2), len(hs))):
+                    how = rng.choice(["copy", "copy", "astype", "tensor_copy"])
+                    ev = {"k": "conv", "how": how, "src": src, "out": g.new_h()}
+                    g.emit(ev)
+                    g.fam_id += 1
+                    g.t[ev["out"]] = G(np.array(g.t[src].val, copy=True), g.t[src].const, -1, g.fam_id)
         return {"prop": self.id, "cfg": cfg, "events": g.ev}
 
     def observers(self, hist):
